@@ -1,0 +1,55 @@
+//go:build verif
+
+package event
+
+// Verification hooks (build tag "verif" only): read-only views of the
+// subscriber list and of one subscription's delivery state, so that an
+// external harness can wait for quiescence instead of sleeping.
+// Nothing here is compiled into a normal build.
+
+// VerifLen returns the number of subscriptions in the subscriber list.
+func (e *Event[T]) VerifLen() int {
+	e.mu.Lock()
+	defer e.mu.Unlock()
+	return len(e.subscribers)
+}
+
+// VerifLast returns an opaque handle of the most recently added subscription
+// still in the list (nil if the list is empty). The handle stays valid after
+// the subscription has been removed.
+func (e *Event[T]) VerifLast() any {
+	e.mu.Lock()
+	defer e.mu.Unlock()
+	if len(e.subscribers) == 0 {
+		return nil
+	}
+	return e.subscribers[len(e.subscribers)-1]
+}
+
+// VerifSubState reports whether the subscription is still subscribed, whether a
+// delivery goroutine is alive for it, and how many fired values are queued.
+func (e *Event[T]) VerifSubState(h any) (active, running bool, pending int) {
+	sub, ok := h.(*subscription[T])
+	if !ok || sub == nil {
+		return false, false, 0
+	}
+	e.mu.Lock()
+	defer e.mu.Unlock()
+	return sub.active, sub.running, len(sub.pending)
+}
+
+// VerifPosition returns the index of the subscription in the subscriber list, -1 if absent.
+func (e *Event[T]) VerifPosition(h any) int {
+	sub, ok := h.(*subscription[T])
+	if !ok || sub == nil {
+		return -1
+	}
+	e.mu.Lock()
+	defer e.mu.Unlock()
+	for i, s := range e.subscribers {
+		if s == sub {
+			return i
+		}
+	}
+	return -1
+}
